@@ -14,3 +14,38 @@ GridProp(
     bounds={"ranks": "0..3", "dims": "{1,2,3,4}", "outside": "primitives without JVP rule raise (allowed); LAPACK-backed primitives, FFT (no JVP rules), sizes beyond the grid"},
     claims=["claim per smooth path: forall x,v: jvp(v) == f'(x; v) entry-wise (oracle: NumPy's primal on x + eps*v) and jvp(v) has the output's shape"],
 ).export(globals())
+
+
+_grid_main_pp, _grid_replay_pp = main, replay
+
+
+def main(tier, only=None):
+    """the grid check, plus the float64 probe of isolated REGULAR points that generic-position reasoning never visits
+    (exact zeros, exponent 0): vf/props/pinned_probe.py"""
+    import os
+
+    if not os.environ.get("VF_EXTRA_RESULTS"):
+        os.environ["VF_EXTRA_RESULTS"] = "vf.props.pinned_jvp"
+    return _grid_main_pp(tier, only=only)
+
+
+def replay(path):
+    import json
+
+    with open(path) as f:
+        data = json.load(f)
+    cex = data.get("cex") or {}
+    if cex.get("mode") == "pinned":
+        from .. import enga
+        from . import pinned_probe
+
+        enga.init()
+        bad = [r for r in pinned_probe.run() if r["key"] == cex["key"] and r["status"] == "violation"]
+        for r in bad:
+            print("replay %s: %s" % (r["key"], r["detail"]))
+        if bad:
+            print("VIOLATION property=C02 replay=%s" % path)
+            return 1
+        print("does not reproduce on the current tree")
+        return 0
+    return _grid_replay_pp(path)
